@@ -112,7 +112,7 @@ func (ft *FT) buildQueryOpt(o *Obl, axs []axTerm, slice bool) string {
 					inc = true
 				}
 			}
-			if inc && (a.ax.Lemma || strings.HasPrefix(a.ax.Name, "def_")) && !ft.visibleFor(o, a.ax) {
+			if inc && (a.ax.Lemma || strings.HasPrefix(a.ax.Name, "def_") || strings.HasPrefix(a.ax.Name, "opt_")) && !ft.visibleFor(o, a.ax) {
 				inc = false
 			}
 			if inc {
